@@ -597,7 +597,7 @@ func runC15Args(c *Ctx) *Violation {
 	t := c.T
 	doc := genJSONDoc(t, JSONOpts{Nulls: true, MaxDepth: 4})
 	if t.Draw(3) == 2 {
-		doc = `{"":` + doc + `,"a":{"":"e","b":[1,{"":2}]}}`
+		doc = `{"":` + doc + `,"a":{"":"e","b":[1,{"":2}]},"*":{"k":"v","*":[{"a":1}]}}`
 	}
 	var m mxj.Map
 	var err error
